@@ -3,7 +3,7 @@
    functions map to OCaml's); nat, positive, N, Z and byte stay the extracted inductives. *)
 From Coq Require Extraction.
 From Coq Require Import ExtrOcamlBasic.
-From KV Require Import Lib.Bytes Model.Date Spec.Calendar Model.Router Spec.RouterSpec Model.Headers Spec.HeaderStore Model.Parser Spec.HttpGrammar Model.Body Spec.ChunkedSpec.
+From KV Require Import Lib.Bytes Model.Date Spec.Calendar Model.Router Spec.RouterSpec Model.Headers Spec.HeaderStore Model.Parser Spec.HttpGrammar Model.Body Spec.ChunkedSpec Model.Server Spec.Framing Spec.ConnSpec Spec.ConnKnown.
 
 Extraction Language OCaml.
 Extraction "model.ml"
@@ -16,4 +16,5 @@ Extraction "model.ml"
   HttpGrammar.strict_head HttpGrammar.headers_of HttpGrammar.sfield_pairs HttpGrammar.render HttpGrammar.rfc_head HttpGrammar.cl_consistent
   HttpGrammar.target_path HttpGrammar.target_query HttpGrammar.field_pairs HttpGrammar.render_target
   Body.new_fixed Body.new_chunked Body.new_eof Body.new_empty Body.read_all Body.bufread_all Body.drain Body.body_src Body.src_rest
-  ChunkedSpec.spec_decode ChunkedSpec.spec_fixed.
+  ChunkedSpec.spec_decode ChunkedSpec.spec_fixed
+  Server.serve_conn Server.reader_payload ConnSpec.spec_conn Framing.rfc_framing ConnSpec.raw_fields ConnKnown.known_F20c ConnKnown.known_F21.
